@@ -1,5 +1,6 @@
 import ChythonModel.Proofs.C11Lemmas
 import ChythonModel.Proofs.C11Frame
+import ChythonModel.Proofs.C11Block
 import ChythonModel.Gen.PeriodicTable
 /-!
 # C11 — MDL write→read preserves the record: property theorems
@@ -116,6 +117,60 @@ theorem prop_line_roundtrip (kind : Char) (tag : Str) (n : Nat) (v : Int) (atoms
         decide +kernel
       exact hall v hm
   exact ctfLine_apply kind tag n v atoms htag hn1 hn hn9 (fmtD 3 v) hlen (pyInt_fmtD 3 v) _ rfl
+
+/-! ## 3b. the whole V2000 MOL block -/
+
+/-- **molblock_roundtrip**: for every molecule the V2000 writer can represent (`WFMol`: every atom fits its columns,
+    ≤ 999 atoms/bonds, isotopes ≤ 999, bond orders ≤ 8, wedge signs ±1, counts line consistent), `parse_mol_v2000` of
+    the written block is `expectedMol`, a function of the molecule alone: title (stripped), atoms **in order** with
+    symbol, charge −4…4 (column code + `M  CHG`), isotope, radical flag, mapping number, exact coordinates; bonds with
+    their orders in written order; wedge marks on the same ordered atom pairs. -/
+theorem molblock_roundtrip (mapping : Bool) (g : WMol) (h : WFMol g) (ls : List Str)
+    (hw : writeMol2000 mapping g = .ok ls) : parseMol2000 ls = .ok (expectedMol mapping g) :=
+  ChythonModel.Proofs.C11.molblock_roundtrip mapping g h ls hw
+
+/-- consequence read off `expectedMol`: charges, isotopes, radicals, atom order and mapping numbers are preserved -/
+theorem molblock_fields (mapping : Bool) (g : WMol) (h : WFMol g) (ls : List Str) (m : PMol)
+    (hw : writeMol2000 mapping g = .ok ls) (hp : parseMol2000 ls = .ok m) :
+    m.atoms.map (fun a => (a.element, a.charge, a.rad, a.map)) =
+      g.atoms.map (fun a => (a.sym, a.charge, a.rad, if mapping then (a.num : Int) else 0)) ∧
+    m.atoms.map (·.isotope) = g.atoms.map (fun a => if a.iso = 0 then none else some (a.iso : Int)) := by
+  rw [molblock_roundtrip mapping g h ls hw] at hp
+  cases hp
+  simp only [expectedMol, List.map_map]
+  constructor
+  · apply List.map_congr_left
+    intro a ha
+    have hc := (h.atomsOk a ha).1
+    simp only [Function.comp, withProps, expectedAtom, lineCharge]
+    by_cases h4 : (a.charge == -4 || a.charge == 4) = true
+    · cases hi : (a.iso != 0) <;> cases hr : a.rad <;> simp [h4]
+    · have h4' : (a.charge == -4 || a.charge == 4) = false := by simpa using h4
+      cases hi : (a.iso != 0) <;> cases hr : a.rad <;> simp [h4']
+  · apply List.map_congr_left
+    intro a _
+    simp only [Function.comp, withProps, expectedAtom]
+    by_cases hi : a.iso = 0
+    · simp [hi]; split <;> split <;> rfl
+    · have : (a.iso != 0) = true := by simpa using hi
+      simp [hi, this]; split <;> split <;> rfl
+
+/-- a non-trivial molecule inside `WFMol`: three atoms, charge −4, isotope, radical, a wedge bond, atom numbers out of
+    order — the writer succeeds and the hypotheses hold -/
+def exampleMol : WMol :=
+  { name := sL " my title ",
+    atoms := [{ num := 7, sym := sL "N", x := 12500, y := -7145, charge := -4, iso := 15, rad := false, nbrs := [(3, 1), (999, 2)] },
+              { num := 3, sym := sL "Cl", x := 0, y := 0, charge := 0, iso := 0, rad := true, nbrs := [(7, 1)] },
+              { num := 999, sym := sL "C", x := -99999999, y := 5, charge := 3, iso := 0, rad := false, nbrs := [(7, 2)] }],
+    wedge := [(7, 3, -1)] }
+
+example : WFMol exampleMol := wfMol_of_B (by decide +kernel)
+example : (writeMol2000 true exampleMol).toBool = true := by decide +kernel
+
+/-- the chunks `writeMol2000` emits are exactly the lines a file reader sees, provided the title has no line break:
+    splitting the concatenated text gives the chunk list back -/
+theorem written_text_lines (ls : List Str) (h : ∀ l ∈ ls, IsLine l) : splitLinesKeep ls.flatten = ls :=
+  splitLinesKeep_flatten ls h
 
 /-! ## 4. record framing (SDF): split ∘ render = id, damage is isolated, index = sequential -/
 
